@@ -50,42 +50,14 @@ func runC09(c *eng.Ctx) {
 	schemaReadBeforeAFlushIsNotAdopted(c)
 	cachedBucketIsNotRecycled(c)
 	cachedBucketNotReleasedByReader(c)
+	failedPostingsReadFailsTheID(c)
+	sequenceCacheHoldsTheNewestID(c)
 	kvStoreFlushSnapshotThenPurge(c)
 
 	// ---- 1. GOC: indexKVStore.createValue -------------------------------------------------------------
 	c.Rule("GOC", kvsT+".createValue", func() { gocCreateValue(c) })
 	// ---- 1b. a name kept in a dictionary owns its memory ---------------------------------------------------------------------------
-	c.Rule("PROV", "index{keys stored in the in-memory dictionaries own their memory}", func() {
-		n := 0
-		for _, prefix := range []string{"index.", "index/model.", "tsdb/memdb."} {
-			for _, fn := range p.FuncsWithPrefix(prefix) {
-				for _, b := range fn.Blocks {
-					for _, in := range b.Instrs {
-						mu, ok := in.(*ssa.MapUpdate)
-						if !ok {
-							continue
-						}
-						if bt, ok := mu.Key.Type().Underlying().(*types.Basic); !ok || bt.Kind() != types.String {
-							continue
-						}
-						n++
-						alias := eng.DependsOn(mu.Key, func(x ssa.Value) bool {
-							cl, ok := x.(*ssa.Call)
-							if !ok || cl.Common().StaticCallee() == nil {
-								return false
-							}
-							g := cl.Common().StaticCallee()
-							return g.Name() == "ByteSlice2String" || g.Pkg != nil && g.Pkg.Pkg.Path() == "unsafe"
-						})
-						c.Check(!alias, fmt.Sprintf("key-copied@%s", p.FuncKey(fn)), in, fn,
-							"a string stored as a map key is a copy (string(b)), not a view of the caller's byte slice: callers hand in slices of a reused decompression buffer, and a key that changes under the map gives a later name the id of an earlier one",
-							"the key is "+p.Desc(mu.Key)+", an unsafe view of a byte slice")
-					}
-				}
-			}
-		}
-		c.Check(n >= 1, "string-keyed-inserts-found", nil, nil, "the dictionaries insert string keys", fmt.Sprintf("%d", n))
-	})
+	dictionaryKeysOwnTheirMemory(c)
 
 	// ---- 5. UNION: lookup consults memory and persisted store before creating ---------------------------
 	c.Rule("UNION", kvsT+".getOrCreateValue", func() {
@@ -1080,4 +1052,41 @@ func indexFlushSeriesLast(c *eng.Ctx) {
 	for _, d := range []string{".metricInverted", ".forward", ".inverted"} {
 		okOrderInFn(c, f, invokeOn(d, "flush"), ser, "index"+d+".flush", "index.series.Flush")
 	}
+}
+
+// dictionaryKeysOwnTheirMemory (shared by C09 and C10).
+func dictionaryKeysOwnTheirMemory(c *eng.Ctx) {
+	p := c.P
+	_ = p
+	c.Rule("PROV", "index{keys stored in the in-memory dictionaries own their memory}", func() {
+		n := 0
+		for _, prefix := range []string{"index.", "index/model.", "tsdb/memdb."} {
+			for _, fn := range p.FuncsWithPrefix(prefix) {
+				for _, b := range fn.Blocks {
+					for _, in := range b.Instrs {
+						mu, ok := in.(*ssa.MapUpdate)
+						if !ok {
+							continue
+						}
+						if bt, ok := mu.Key.Type().Underlying().(*types.Basic); !ok || bt.Kind() != types.String {
+							continue
+						}
+						n++
+						alias := eng.DependsOn(mu.Key, func(x ssa.Value) bool {
+							cl, ok := x.(*ssa.Call)
+							if !ok || cl.Common().StaticCallee() == nil {
+								return false
+							}
+							g := cl.Common().StaticCallee()
+							return g.Name() == "ByteSlice2String" || g.Pkg != nil && g.Pkg.Pkg.Path() == "unsafe"
+						})
+						c.Check(!alias, fmt.Sprintf("key-copied@%s", p.FuncKey(fn)), in, fn,
+							"a string stored as a map key is a copy (string(b)), not a view of the caller's byte slice: callers hand in slices of a reused decompression buffer, and a key that changes under the map gives a later name the id of an earlier one",
+							"the key is "+p.Desc(mu.Key)+", an unsafe view of a byte slice")
+					}
+				}
+			}
+		}
+		c.Check(n >= 1, "string-keyed-inserts-found", nil, nil, "the dictionaries insert string keys", fmt.Sprintf("%d", n))
+	})
 }
